@@ -430,3 +430,10 @@ Definition from_stereo_final (fixs : stereo_labels -> stereo_labels) (isH : Z ->
              | Ok lb => Ok (if has_tag tags || has_bond_label rbonds then fixs (la, lb) else (la, lb))
              end
   end.
+
+(* ------------------------------------------------------------------------------------------------ *)
+(* the one rule of MoleculeStereo.__chiral_centers the bridge depends on for ring double bonds (it decides whether fix_stereo
+   keeps their label):   for n, m in ring_cumulenes_terminals: if any(len(x) < 8 for x in atoms_rings[n]): <not chiral>
+                                                               elif (n, m) in cis_trans: chiral
+   [sizes] = the sizes of the rings through the first atom of the bond *)
+Definition ring_bond_chiral (sizes : list Z) : bool := negb (existsb (fun x => x <? 8) sizes).
